@@ -492,6 +492,18 @@ def lean_expr(e):
     return '(.%s %s %s)' % (k, lean_expr(e[1]), lean_expr(e[2]))
 
 
+LEAN_KEYWORDS = {'end', 'at', 'from', 'in', 'open', 'section', 'do', 'then', 'else', 'if', 'fun', 'let', 'have', 'show', 'by', 'with', 'match',
+                 'where', 'deriving', 'instance', 'structure', 'class', 'def', 'theorem', 'example', 'abbrev', 'import', 'namespace',
+                 'variable', 'universe', 'mutual', 'macro', 'syntax', 'notation', 'infix', 'prefix', 'postfix', 'private', 'protected',
+                 'partial', 'unsafe', 'noncomputable', 'return', 'for', 'unless', 'try', 'catch', 'finally', 'break', 'continue',
+                 'Type', 'Prop', 'Sort', 'local', 'attribute', 'set_option', 'using', 'extends', 'inductive', 'axiom', 'opaque',
+                 'calc', 'nomatch', 'nofun', 'true', 'false', 'module', 'meta', 'public'}
+
+
+def lean_ident(i):
+    return '«%s»' % i if i in LEAN_KEYWORDS else i
+
+
 def chunked(items, n=64):
     return [items[i:i + n] for i in range(0, len(items), n)]
 
@@ -527,6 +539,18 @@ def emit_lean(t, outdir):
         if f.endswith('.lean') and f[:-5] not in mods:
             os.remove(os.path.join(qdir, f))
             written += 1
+    # identifiers as Str constants, so hand-written theorems can name units and quantities
+    idents = []
+    seen = set()
+    for q in t['quantities']:
+        for ident in [q['module']] + [u['name'] for u in q['units']]:
+            if ident not in seen:
+                seen.add(ident)
+                idents.append(ident)
+    nl = ['-- GENERATED by translate/translate.py — do not edit', 'import Uom.Model.Table', 'namespace Uom.Gen.N', 'open Uom']
+    nl += ['def %s : Str := %s' % (lean_ident(i), lean_str(i)) for i in idents]
+    nl.append('end Uom.Gen.N')
+    written += write_if_changed(os.path.join(outdir, 'Names.lean'), '\n'.join(nl) + '\n')
     lines = ['-- GENERATED by translate/translate.py — do not edit']
     lines += ['import Uom.Gen.Q.%s' % m for m in mods]
     lines += ['namespace Uom.Gen', 'open Uom', '']
